@@ -198,7 +198,7 @@ def k_c05(ctx):
             elif unc and not rr.get("ok"):
                 first = unc[0][0]
                 names = {(t, compare.iso_of_ordinal(z)) for z, t in unc if z == first}
-                if cls[0] not in ("ExceedsHolding", "NoPrior", "Unmatched") or (cls[1], cls[2]) not in names:
+                if cls[0] not in ("ExceedsHolding", "NoPrior", "Unmatched", "Refusal") or (cls[1], cls[2]) not in names:
                     bad = ("error_names_sale", "first uncovered sale is %s but the error says: %s" % (sorted(names), rr.get("error", "")[:200]))
             # model agreement on accept/reject (K)
             kd = [d for d in compare.compare_outcome(mm, rr) if d[0] in what]
@@ -792,7 +792,7 @@ def k_c12(ctx):
             if ob[0] == "ok" and ov[0] != "ok":
                 # the failure must be located in the continuation
                 c = compare.classify_error(rr.get("error", ""))
-                loc_ok = (c[0] in ("ExceedsHolding", "NoPrior", "Unmatched", "ResvExceeds", "CapExceeds") and c[2] and datetime.date.fromisoformat(c[2]) >= s_first) or \
+                loc_ok = (c[0] in ("ExceedsHolding", "NoPrior", "Unmatched", "ResvExceeds", "CapExceeds", "Refusal") and c[2] and datetime.date.fromisoformat(c[2]) >= s_first) or \
                          (c[0] == "NoExemption" and c[3] is not None and c[3] >= K.tax_year(s_first)) or c[0] in ("MissingFx",)
                 if not loc_ok: fails.append(("rejected_for_earlier_period", "%s: accepted prefix, extension refused with: %s" % (n, rr.get("error", "")[:160]), None))
                 continue
